@@ -106,3 +106,125 @@ Proof.
     rewrite Hhead. apply seg_roundtrip. exact Ha.
   - apply IH. assumption.
 Qed.
+
+(* ---- file-level time ranges ---- *)
+Lemma tr_fold_from : forall chunks n lo hi, 0 < n ->
+  exists n' lo' hi', fold_left tr_step chunks (n, (lo, hi)) = (n', (lo', hi')) /\
+  n' = n + len chunks /\ lo' <= lo /\ hi <= hi' /\
+  (forall c, In c chunks -> lo' <= fst c /\ snd c <= hi') /\
+  (lo' = lo \/ exists c, In c chunks /\ fst c = lo') /\ (hi' = hi \/ exists c, In c chunks /\ snd c = hi').
+Proof.
+  induction chunks as [|c r IH]; intros n lo hi Hn.
+  - exists n, lo, hi. cbn. repeat split; try lia; try (left; reflexivity); intros c [].
+  - cbn [fold_left]. unfold tr_step at 2. destruct (Z.eqb_spec n 0); [lia|].
+    set (lo1 := if lo >? fst c then fst c else lo). set (hi1 := if hi <? snd c then snd c else hi).
+    destruct (IH (n + 1) lo1 hi1) as (n' & lo' & hi' & EF & E & L & H & A & ML & MH); [lia|].
+    exists n', lo', hi'. split; [exact EF|].
+    assert (L1 : lo1 <= lo /\ lo1 <= fst c) by (unfold lo1; destruct (Z.gtb_spec lo (fst c)); lia).
+    assert (H1 : hi <= hi1 /\ snd c <= hi1) by (unfold hi1; destruct (Z.ltb_spec hi (snd c)); lia).
+    rewrite len_cons. split; [lia|]. split; [lia|]. split; [lia|]. split; [|split].
+    + intros d [<-|Hd]; [lia|apply A; assumption].
+    + destruct ML as [ML|(d & Hd & Ed)].
+      * unfold lo1 in ML. destruct (Z.gtb_spec lo (fst c)).
+        -- right. exists c. split; [left; reflexivity|lia].
+        -- left. lia.
+      * right. exists d. split; [right; assumption|assumption].
+    + destruct MH as [MH|(d & Hd & Ed)].
+      * unfold hi1 in MH. destruct (Z.ltb_spec hi (snd c)).
+        -- right. exists c. split; [left; reflexivity|lia].
+        -- left. lia.
+      * right. exists d. split; [right; assumption|assumption].
+Qed.
+
+(* the range recorded for a non-empty sequence of chunks is the hull of the chunk ranges: it contains every chunk range
+   and both ends are attained *)
+Theorem tr_fold_hull : forall chunks, chunks <> [] ->
+  exists lo hi, tr_fold chunks = (len chunks, (lo, hi)) /\
+  (forall c, In c chunks -> lo <= fst c /\ snd c <= hi) /\
+  (exists c, In c chunks /\ fst c = lo) /\ (exists c, In c chunks /\ snd c = hi).
+Proof.
+  intros [|c r] Hne; [contradiction|]. unfold tr_fold. cbn [fold_left]. unfold tr_step at 2. cbn [Z.eqb fst snd].
+  replace (if fst c >? fst c then fst c else fst c) with (fst c) by (destruct (fst c >? fst c); reflexivity).
+  replace (if snd c <? snd c then snd c else snd c) with (snd c) by (destruct (snd c <? snd c); reflexivity).
+  destruct (tr_fold_from r (0 + 1) (fst c) (snd c)) as (n & lo & hi & EF & E & L & H & A & ML & MH); [lia|].
+  exists lo, hi. rewrite EF, len_cons. split; [f_equal; lia|]. split; [|split].
+  - intros d [<-|Hd]; [lia|apply A; assumption].
+  - destruct ML as [->|(d & Hd & Ed)]; [exists c; split; [left; reflexivity|reflexivity]|exists d; split; [right; assumption|assumption]].
+  - destruct MH as [->|(d & Hd & Ed)]; [exists c; split; [left; reflexivity|reflexivity]|exists d; split; [right; assumption|assumption]].
+Qed.
+
+(* sorted row times: the first is the least, the last the greatest *)
+Lemma last_in : forall (l : list Z) b, In (last (b :: l) 0) (b :: l).
+Proof.
+  induction l as [|x l IH]; intros b; [left; reflexivity|].
+  change (last (b :: x :: l) 0) with (last (x :: l) 0). right. apply IH.
+Qed.
+
+Lemma sorted_hd_last : forall ts t, Sorted Z.le ts -> In t ts -> hd 0 ts <= t <= last ts 0.
+Proof.
+  intros ts t S. apply Sorted_StronglySorted in S; [|intros x y z; lia].
+  induction S as [|a l S IH F]; intros Hin; [destruct Hin|].
+  rewrite Forall_forall in F.
+  destruct l as [|b l'].
+  - destruct Hin as [<-|[]]. cbn. lia.
+  - change (last (a :: b :: l') 0) with (last (b :: l') 0). cbn [hd].
+    pose proof (F _ (last_in l' b)) as HL. pose proof (F b (or_introl eq_refl)) as HB.
+    destruct Hin as [<-|Hin]; [lia|]. specialize (IH Hin). cbn [hd] in IH. lia.
+Qed.
+
+Lemma hd_concat : forall (segs : list (list Z)), Forall (fun s => s <> []) segs -> hd 0 (concat segs) = hd 0 (hd [] segs).
+Proof. intros [|s r] F; [reflexivity|]. inversion F; subst. destruct s; [contradiction|reflexivity]. Qed.
+
+Lemma last_app_ne : forall (a b : list Z), b <> [] -> last (a ++ b) 0 = last b 0.
+Proof.
+  induction a as [|x a IH]; intros b Hb; [reflexivity|].
+  cbn [app]. destruct (a ++ b) eqn:E; [destruct a; [cbn in E; contradiction|discriminate]|]. rewrite <- E. cbn [last]. rewrite E. rewrite <- E. apply IH. exact Hb.
+Qed.
+
+Lemma last_concat : forall (segs : list (list Z)), segs <> [] -> Forall (fun s => s <> []) segs ->
+  last (concat segs) 0 = last (last segs []) 0.
+Proof.
+  induction segs as [|s r IH]; intros Hne F; [contradiction|]. inversion F; subst.
+  destruct r as [|s2 r'].
+  - cbn. rewrite app_nil_r. reflexivity.
+  - cbn [concat]. rewrite last_app_ne.
+    + change (last (s :: s2 :: r') []) with (last (s2 :: r') []). apply IH; [discriminate|assumption].
+    + inversion H2; subst. cbn [concat]. destruct s2; [contradiction|discriminate].
+Qed.
+
+(* the chunk range of a time-sorted chunk split into non-empty segments (any split) is (first row time, last row time) *)
+Lemma chunk_range_concat : forall segs, segs <> [] -> Forall (fun s => s <> []) segs ->
+  chunk_range (map seg_range segs) = (hd 0 (concat segs), last (concat segs) 0).
+Proof.
+  intros segs Hne F. unfold chunk_range. rewrite hd_concat, last_concat by assumption.
+  destruct segs as [|s r]; [contradiction|]. cbn [map hd fst seg_range]. f_equal.
+  clear Hne F. revert s. induction r as [|s2 r IH]; intros s; [reflexivity|].
+  change (last (map seg_range (s :: s2 :: r)) (0, 0)) with (last (map seg_range (s2 :: r)) (0, 0)).
+  change (last (s :: s2 :: r) []) with (last (s2 :: r) []). apply IH.
+Qed.
+
+(* a data file of time-sorted series, each split into non-empty segments in any way: the recorded range (the trailer's
+   over all chunks, a meta-index entry's over its block of chunks) is met by every query range that holds the time of a
+   stored row - file.ContainsByTime / ContainsValue / MetaIndex never deny a stored row - and the range is tight *)
+Theorem file_range_never_denies : forall (file : list (list (list Z))),
+  file <> [] ->
+  Forall (fun segs => segs <> [] /\ Forall (fun s => s <> []) segs /\ Sorted Z.le (concat segs)) file ->
+  exists lo hi, tr_fold (file_chunk_ranges file) = (len file, (lo, hi)) /\
+  (forall segs t q, In segs file -> In t (concat segs) -> fst q <= t <= snd q -> overlaps q lo hi = true) /\
+  (exists segs, In segs file /\ hd 0 (concat segs) = lo) /\ (exists segs, In segs file /\ last (concat segs) 0 = hi).
+Proof.
+  intros file Hne F.
+  assert (Hne' : file_chunk_ranges file <> []) by (destruct file; [contradiction|discriminate]).
+  destruct (tr_fold_hull (file_chunk_ranges file) Hne') as (lo & hi & E & A & (cl & Hcl & Ecl) & (ch & Hch & Ech)).
+  exists lo, hi. rewrite Forall_forall in F.
+  split; [rewrite E; unfold file_chunk_ranges, len; rewrite map_length; reflexivity|]. split; [|split].
+  - intros segs t q Hs Ht Hq. destruct (F segs Hs) as (N1 & N2 & S).
+    assert (I : In (chunk_range (map seg_range segs)) (file_chunk_ranges file)).
+    { unfold file_chunk_ranges. apply in_map_iff. exists segs. split; [reflexivity|assumption]. }
+    specialize (A _ I). rewrite chunk_range_concat in A by assumption. cbn [fst snd] in A.
+    pose proof (sorted_hd_last _ t S Ht). unfold overlaps. lia.
+  - unfold file_chunk_ranges in Hcl. apply in_map_iff in Hcl. destruct Hcl as (segs & <- & Hs).
+    destruct (F segs Hs) as (N1 & N2 & S). rewrite chunk_range_concat in Ecl by assumption. exists segs. split; assumption.
+  - unfold file_chunk_ranges in Hch. apply in_map_iff in Hch. destruct Hch as (segs & <- & Hs).
+    destruct (F segs Hs) as (N1 & N2 & S). rewrite chunk_range_concat in Ech by assumption. exists segs. split; assumption.
+Qed.
